@@ -305,6 +305,15 @@ def zone_series(zones, units):
     return out
 
 
+def digit_series(dzones):
+    """Pumping the digits of a numeric value in context: 1, 11, 111, 1111 — with and without a database."""
+    out = []
+    for z in sorted(dzones):
+        for mode in ("nodb", "db"):
+            out.append((["digits", z], "digits %s" % z, mode, [(n, W.digit_text(z, n)) for n in W.DIGIT_SIZES]))
+    return out
+
+
 def pump_all(ctx, series_list, lang):
     """series_list: [(key, series name, mode, [(n, text)])] -> [(key, sname, mode, counts, verdict)]"""
     if not series_list:
@@ -333,6 +342,8 @@ def pump_all(ctx, series_list, lang):
 def _series_text(key):
     if key[0] == "zone":
         return W.zone_text(key[1], key[2], 3) + " ..."
+    if key[0] == "digits":
+        return W.digit_text(key[1], 3) + " ..."
     return W.concretise(key[2])[:60]
 
 
@@ -341,6 +352,8 @@ def _growth_key(key, sname, verdict):
         return verdict[len("raises "):]          # crash key: entry point, exception class, innermost mwlib frame
     if key[0] == "zone":
         return "growth zone=%s unit=%s" % (key[1], key[2])
+    if key[0] == "digits":
+        return "growth digits zone=%s" % key[1]
     return "growth %s atoms=%s" % (sname.split(" ")[0], json.dumps(key[2]))
 
 
@@ -503,13 +516,15 @@ def run(ctx):
     items = [(cid, c[0], c[1], c[2]) for cid, c in sorted(chosen.items())]
     rnd.shuffle(items)
     t2 = time.time()
-    W.check_zones(ctx, heads["full"]["zones"], heads["full"]["units"])
+    W.check_zones(ctx, heads["full"]["zones"], heads["full"]["units"], heads["full"]["digitzones"])
     series_list = []
     for idx, atoms, net, peak in items:
         for sname, mode, series in pump_series(atoms, net, peak, idx):
             series_list.append((["lex", idx, atoms, net, peak], sname, mode, series))
     zs = zone_series(heads["full"]["zones"], heads["full"]["units"])
     series_list += zs
+    ds = digit_series(heads["full"]["digitzones"])
+    series_list += ds
     random.Random(ctx.seed).shuffle(series_list)
     if hangs:
         ctx.note("parses hang: the growth measurements are skipped (every pumped text would wait for its deadline)")
@@ -529,7 +544,7 @@ def run(ctx):
                   distinct_stage_traces=len(keys), raising_stage_traces=len(raise_keys),
                   traces_validated_against_impl=sum(t[0] for t in traces.values()),
                   states=mc_states + gen_states + tstates, transitions=mc_trans + ttrans,
-                  pumped_texts=len(items), pump_series=nseries, zone_unit_series=len(zs), pump_measurements=nmeasured,
+                  pumped_texts=len(items), pump_series=nseries, zone_unit_series=len(zs), digit_series=len(ds), pump_measurements=nmeasured,
                   action_coverage=cov, nonvacuity={"AllowRaise": [nv.kind, nv.name]},
                   rule="every one-edit variant WikiFaults.tla generates of its 24 well-formed documents (insert a Structural lexeme / "
                        "delete / duplicate / swap at every position; quick: a third of the inserts, rotating) and "
@@ -563,7 +578,9 @@ def replay(ctx, path):
         rec = json.load(f)["replay"]
     if rec["kind"] == "growth":
         key = rec["key"]
-        if key[0] == "zone":
+        if key[0] == "digits":
+            sl = [x for x in digit_series([key[1]]) if x[2] == rec["mode"]]
+        elif key[0] == "zone":
             sl = [x for x in zone_series([key[1]], [key[2]])]
         else:
             sl = [(key, sname, mode, series) for sname, mode, series in pump_series(key[2], key[3], key[4], key[1])
